@@ -131,6 +131,7 @@ Section Wf.
     - (* OPENPAR *)
       repeat break_match_hyp; try discriminate; inversion H; subst; fin Hs Hd.
     - (* CLOSEPAR *)
+      destruct (L - 1 <? 0)%Z; [discriminate|].
       destruct (pop (mkS stk0 dr L p pe)) as [[stk' dr']|] eqn:Ep; [|discriminate]. inversion H; subst.
       destruct (pop_inv _ _ _ Hinv Ep). split; assumption.
     - (* STARTLEN *)
